@@ -14,10 +14,13 @@ VARIABLE v
 \* what lies where the configuration file is looked for (the working directory and its ancestors, no -c option), next to an ordinary
 \* source tree: a DIRECTORY called typeshare.toml (here / one level up), an empty file, a file that is not TOML, a symbolic link to
 \* itself, a dangling link. The run still ends: with output, or with a diagnostic that names the file.
-ConfigSurroundings == {"config_is_dir", "config_is_dir_in_parent", "config_empty", "config_invalid", "config_symlink_loop", "config_dangling_link"}
+\* config_odd_values: a valid configuration whose lists and strings hold empty / one-character values (an empty acronym, "_", an empty decorator,
+\* an empty mapping key): every backend still terminates
+ConfigSurroundings == {"config_is_dir", "config_is_dir_in_parent", "config_empty", "config_invalid", "config_symlink_loop", "config_dangling_link", "config_odd_values"}
 Init == v \in { r \in [construct : Constructs, lang : Langs, mode : Modes, companion : Companions, packages : Packages, invocation : Invocations] :
                   /\ r.packages = "none" => (r.construct \in {"ok_struct", "generic_tree"} /\ r.companion = "none")
-                  /\ r.invocation # "absolute" => (r.construct \in {"ok_struct", "not_rust"} \cup ConfigSurroundings /\ r.packages = "given" /\ r.lang \in {"typescript", "swift"})
+                  /\ r.invocation # "absolute" => (r.construct \in {"ok_struct", "not_rust"} \cup ConfigSurroundings /\ r.packages = "given"
+                                                   /\ (r.lang \in {"typescript", "swift"} \/ r.construct = "config_odd_values"))
                   /\ r.construct \in ConfigSurroundings => r.invocation # "absolute" }
 Next == UNCHANGED v
 \* Go and Scala cannot generate without a package name: that is a configuration error. No source file is at fault, so the
